@@ -2,7 +2,7 @@
 from typing import Optional
 
 from metapype.model.node import Node
-from harness.hlib import fresh, SHAPES, build, nodes, snap, count, part, bound
+from harness.hlib import fresh, SHAPES, build, nodes, snap, count, part, bound, affix
 
 _P = part(2)            # pinned per process: shape index + 100 * field (field 99 = symbolic field)
 SH = _P % 100
@@ -50,6 +50,12 @@ def h_one_field(node: int, val: Optional[str]) -> str:
     shape = SHAPES[SH]
     a = build(shape, "a")
     b = build(shape, "b")
+    if affix("") != "":
+        # long-text variant: both trees carry the same long text; the edit changes it somewhere (symbolic piece in the middle)
+        for t in (a, b):
+            for n in nodes(t):
+                edit(n, field, affix("") if field in (1, 2, 3, 5, 7, 8) else None)
+    val = affix(val)
     target = nodes(b)[node % count(shape)]
     edit(target, field, val)
     expect = snap(a, ids=False) == snap(b, ids=False)
